@@ -563,9 +563,56 @@ def incomplete_cases(res):
         shutil.rmtree(d, ignore_errors=True)
 
 
+def interrupt_case(rng, res):
+    """The front end is interrupted (SIGINT, as from Ctrl-C) while the step command runs: no link is written - and the
+    exit status does not say success."""
+    import signal, subprocess, time
+    tool = rng.choice(["in_toto_run", "in_toto_mock"])
+    spelling = rng.choice(["script", "module"])
+    k = rng.choice(W.pool())
+    d = tempfile.mkdtemp(prefix="verif-c18i-")
+    try:
+        child = [sys.executable, "-c", "import time; open('started', 'w').close(); time.sleep(30)"]
+        argv = ["-n", "st"] + (["-p", ".", "--signing-key", priv_path(k)] if tool == "in_toto_run" else []) + ["--"] + child
+        if spelling == "script":
+            name, mod, func = cli.console_scripts().get(tool, (tool.replace("_", "-"), "in_toto." + tool, "main"))
+            cmd = [sys.executable, "-c", "import sys\nfrom %s import %s\nsys.argv[0] = %r\nsys.exit(%s())\n" % (mod, func, name, func)] + argv
+        else:
+            cmd = [sys.executable, "-m", "in_toto." + tool] + argv
+        p = subprocess.Popen(cmd, cwd=d, stdin=subprocess.DEVNULL, stdout=subprocess.DEVNULL, stderr=subprocess.DEVNULL,
+                             start_new_session=True)
+        t0 = time.time()
+        while not os.path.exists(os.path.join(d, "started")) and time.time() - t0 < 60 and p.poll() is None:
+            time.sleep(0.05)
+        started = os.path.exists(os.path.join(d, "started"))
+        if p.poll() is None:
+            os.kill(p.pid, signal.SIGINT)
+        try:
+            st = p.wait(timeout=60)
+        except subprocess.TimeoutExpired:
+            p.kill(); p.wait()
+            st = "still running 60 s after SIGINT"
+        try:
+            os.killpg(p.pid, signal.SIGKILL)        # (the sleeping step command, if it is still there)
+        except OSError:
+            pass
+        links = sorted(f for f in os.listdir(d) if f.endswith(".link"))
+    finally:
+        shutil.rmtree(d, ignore_errors=True)
+    case = {"op": "interrupt", "tool": tool, "front_end_run_as": spelling, "key": k.kind}
+    ok = (not started) or (st != 0 and not links)
+    res.case(dict(case, status=st, links=links, command_had_started=started), started, ok, sample_cap=1)
+    res.count("interrupted_front_end")
+    if not ok:
+        res.fail("oracle", case, {"why": "interrupted while the step command ran: exit status %r, link files %r - an operation that did "
+                                         "not complete is not a success" % (st, links)})
+
+
 def shard(seed, idx, n, tier):
     res = core.Result()
     rng = core.rng_for(seed, "c18", idx)
+    if idx in (3, 4, 5, 6):
+        interrupt_case(rng, res)
     if idx == 0:
         incomplete_cases(res)
     if idx in (1, 2):
